@@ -384,6 +384,8 @@ def option_argv(o):
         a += ['--quota', o['quota']]          # 'inf' / '0': no quota, spelled out
     if o.get('sitemaps'):
         a.append('--sitemaps')
+    if o.get('convert_links'):
+        a.append('--convert-links')       # a second queue (saved files to convert) and a pipeline after the downloads
     return a
 
 
